@@ -1,1 +1,2 @@
+pub mod gen_curves;
 pub mod gen_fields;
